@@ -387,8 +387,8 @@ Proof.
         -- inv H. split; simpl; auto. apply SI1_upd_keep; auto.
         -- assert (Hi : forall fo, SI1 (upd_dir (fst (alloc_file s fo)) d (set_ch (d_ch o ++ [(nm, RFile (length (files s)))])))).
            { intros fo. apply SI1_set_ch; auto. apply ch_ok_snoc; auto. eapply SI1_get; eauto. }
-           destruct w; inv H; split; simpl; auto. apply SI1_upd_keep; auto. apply Hi.
-           apply Hi.
+           destruct w; [|destruct (lock_first ar)]; inv H; split; simpl; auto;
+             first [apply Hi | apply SI1_upd_keep; auto; apply Hi].
   - brk H; inv H; simpl; auto. split; auto. apply SI1_upd_keep; auto.
   - brk H; inv H; simpl; auto.
   - (* PSnap *)
@@ -554,15 +554,17 @@ Qed.
 (** * T2: a file holds a whole written value whenever no handle is open on it *)
 Section Values.
   Variable V : list bytes.
+  Variable fl : flavour.
+  Definition emp_ok : Prop := lock_first fl = false -> In [] V.
 
   Definition file_v (fo : fileobj) : Prop := f_holder fo = None -> In (f_data fo) V.
   Definition SP2 (s : shared) : Prop := Forall file_v (files s).
   Definition wk_v (w : wk) : Prop :=
-    match w with WData d => In d V | WStream c => In (concat c) V /\ In [] V end.
+    match w with WData d => In d V | WStream c => In (concat c) V /\ emp_ok end.
   Definition amk_v (a : amk) : Prop :=
     match a with
     | MWrite _ d => In d V
-    | MWriter _ c => In (concat c) V /\ In [] V
+    | MWriter _ c => In (concat c) V /\ emp_ok
     | _ => True
     end.
   Definition held_by (s : shared) (t f : nat) (P : bytes -> Prop) : Prop :=
@@ -641,8 +643,8 @@ Section Values.
   Ltac same_files :=
     split; [eapply SP2_same; [reflexivity|eassumption]|split; [|apply fr_same; reflexivity]].
 
-  Lemma step_pc_v ar t s p s' n :
-    SP2 s -> pc_v s t p -> step_pc ar t s p = Some (s', n) ->
+  Lemma step_pc_v t s p s' n :
+    SP2 s -> pc_v s t p -> step_pc fl t s p = Some (s', n) ->
     SP2 s' /\ next_v s' t n /\ fr t s s'.
   Proof.
     intros HS Hp H. destruct p; simpl in H; try discriminate.
@@ -684,9 +686,14 @@ Section Values.
           -- destruct w as [data|chunks]; inv H.
              ++ split; [eapply SP2_same; [reflexivity|]; apply SP2_alloc_file; auto; intros _; exact Hp|].
                 split; [simpl; auto|]. eapply fr_trans; [apply fr_alloc_file|apply fr_same; reflexivity].
-             ++ destruct Hp as [Hc He].
-                split; [eapply SP2_same; [reflexivity|]; apply SP2_alloc_file; auto; intros _; exact He|].
-                split; [exact Hc|]. eapply fr_trans; [apply fr_alloc_file|apply fr_same; reflexivity].
+             ++ destruct Hp as [Hc He]. destruct (lock_first fl) eqn:Elf; inv H1.
+                ** split; [eapply SP2_same; [reflexivity|]; apply SP2_alloc_file; auto; intros Hh; discriminate Hh|].
+                   split; [|eapply fr_trans; [apply fr_alloc_file|apply fr_same; reflexivity]].
+                   unfold next_v, pc_v, held_by. cbn [release_L upd_dir files].
+                   eexists. split; [rewrite nth_error_app2, Nat.sub_diag by lia; reflexivity|].
+                   simpl. auto.
+                ** split; [eapply SP2_same; [reflexivity|]; apply SP2_alloc_file; auto; intros _; apply He; exact Elf|].
+                   split; [exact Hc|]. eapply fr_trans; [apply fr_alloc_file|apply fr_same; reflexivity].
     - (* PWriterAcq *)
       simpl in Hp. destruct (nth_error (files s) f) as [fo|] eqn:Ef; [|inv H; same_files; simpl; auto].
       destruct (f_holder fo) eqn:Eh; [discriminate|]. inv H.
@@ -709,14 +716,14 @@ Section Values.
   Qed.
 
   Definition LP2 (s : shared) (t : nat) (l : local) : Prop :=
-    pc_v s t (pc l) /\ Forall (fun o => incl (op_vals o) V) (prog l) /\ Forall (fun e => res_v (snd e)) (log l).
+    pc_v s t (pc l) /\ Forall (fun o => incl (op_vals fl o) V) (prog l) /\ Forall (fun e => res_v (snd e)) (log l).
 
-  Lemma start_v s t o : incl (op_vals o) V -> next_v s t (start o).
+  Lemma start_v s t o : incl (op_vals fl o) V -> next_v s t (start o).
   Proof.
     intros Hi. destruct o; simpl in *.
     - destruct (split_last p) as [[dp nm]|]; simpl; auto. apply goto_mk_v. simpl. apply Hi. left; auto.
-    - destruct (split_last p) as [[dp nm]|]; simpl; auto. apply goto_mk_v. simpl.
-      split; apply Hi; simpl; auto.
+    - destruct (split_last p) as [[dp nm]|]; simpl; auto. apply goto_mk_v. simpl. unfold emp_ok.
+      destruct (lock_first fl); split; try (intros Hd; discriminate Hd); try (intros _); apply Hi; simpl; auto.
     - apply goto_mk_v. simpl; auto.
     - destruct p; simpl; auto.
     - destruct p; simpl; auto.
@@ -728,7 +735,7 @@ Section Values.
   Qed.
 
   Lemma apply_next_LP2 s t l n :
-    Forall (fun o => incl (op_vals o) V) (prog l) -> Forall (fun e => res_v (snd e)) (log l) ->
+    Forall (fun o => incl (op_vals fl o) V) (prog l) -> Forall (fun e => res_v (snd e)) (log l) ->
     next_v s t n -> LP2 s t (apply_next l n).
   Proof.
     intros H2 H3 Hn. destruct n as [p|r]; simpl.
@@ -741,8 +748,8 @@ Section Values.
   Lemma LP2_frame t s s' t' l : fr t s s' -> t' <> t -> LP2 s t' l -> LP2 s' t' l.
   Proof. intros Hfr Hn (H1 & H2 & H3). repeat split; auto. eapply pc_v_frame; eauto. Qed.
 
-  Lemma step_local_I2 ar t s l s' l' :
-    SP2 s -> LP2 s t l -> step_local ar t s l = Some (s', l') ->
+  Lemma step_local_I2 t s l s' l' :
+    SP2 s -> LP2 s t l -> step_local fl t s l = Some (s', l') ->
     SP2 s' /\ LP2 s' t l' /\ forall t' l'', t' <> t -> LP2 s t' l'' -> LP2 s' t' l''.
   Proof.
     intros HS (H1 & H2 & H3) H. unfold step_local in H.
@@ -752,18 +759,18 @@ Section Values.
          - intros. eapply LP2_frame; eauto. apply fr_refl. }
     all: match type of H with context [step_pc ?a ?b ?c ?p] =>
            destruct (step_pc a b c p) as [[s1 n]|] eqn:Es; [|discriminate]; inv H;
-           destruct (step_pc_v _ _ _ _ _ _ HS H1 Es) as (Ha & Hb & Hc);
+           destruct (step_pc_v _ _ _ _ _ HS H1 Es) as (Ha & Hb & Hc);
            split; [exact Ha|split; [apply apply_next_LP2; auto|intros; eapply LP2_frame; eauto]]
          end.
   Qed.
 
   Definition I2 : state -> Prop := TInv SP2 LP2.
 
-  Lemma I2_step ar t st st' : I2 st -> step ar t st = Some st' -> I2 st'.
+  Lemma I2_step t st st' : I2 st -> step fl t st = Some st' -> I2 st'.
   Proof. apply step_lift. intros. eapply step_local_I2; eauto. Qed.
 End Values.
 
-Lemma I2_boot s progs : good_shared s = true -> I2 (vals_of (boot s progs)) (boot s progs).
+Lemma I2_boot fl s progs : good_shared s = true -> I2 (vals_of fl (boot s progs)) fl (boot s progs).
 Proof.
   intros Hs. split.
   - unfold SP2. apply Forall_forall. intros fo Hfo _. unfold vals_of. apply in_or_app. left.
@@ -793,13 +800,13 @@ Qed.
 
 Theorem values ar s0 progs sched :
   good_shared s0 = true ->
-  let V := vals_of (boot s0 progs) in
+  let V := vals_of ar (boot s0 progs) in
   let st := run ar sched (boot s0 progs) in
   (forall f fo, nth_error (files (sh st)) f = Some fo -> f_holder fo = None -> In (f_data fo) V) /\
   (forall t o v, In (o, QData v) (results_of st t) -> In v V).
 Proof.
   intros Hs V st.
-  assert (HI : I2 V st) by (apply run_inv; [apply I2_step|apply I2_boot; auto]).
+  assert (HI : I2 V ar st) by (apply run_inv; [apply I2_step|apply I2_boot; auto]).
   destruct HI as [HS HL]. split.
   - intros f fo E Eh. eapply SP2_get; eauto.
   - intros t o v Hin. unfold results_of in Hin. destruct (nth_error (ths st) t) as [lo|] eqn:E; [|destruct Hin].
@@ -809,12 +816,12 @@ Qed.
 (** every value of the abstract tree of a state without open handles is a written value *)
 
 Lemma f28_all_explored :
-  forallb (fun sc => explore true 60 (sc_explained sc) (sc_init sc)) f28_scenarios = true.
+  forallb (fun sc => explore cur 60 (sc_explained sc) (sc_init sc)) f28_scenarios = true.
 Proof. vm_compute. reflexivity. Qed.
 
 Theorem remove_create_serialisable sc sched :
   In sc f28_scenarios ->
-  let st := run true sched (sc_init sc) in
+  let st := run cur sched (sc_init sc) in
   final st = true -> sc_explained sc st = true.
 Proof.
   intros Hin st Hf. pose proof f28_all_explored as H. rewrite forallb_forall in H.
@@ -827,30 +834,30 @@ Definition sched_f28 : list nat := [0;0;1;1;0;1;1]%nat.
 
 Theorem F28_refuted :
   In sc_f28 f28_scenarios /\
-  let st := run false sched_f28 (sc_init sc_f28) in
+  let st := run before_8463491 sched_f28 (sc_init sc_f28) in
   final st = true /\ both_ok st = true /\ sc_explained sc_f28 st = false /\
   lookup (abs (sh st)) [nD; nX] = None /\ lookup (abs (sh st)) [nD] = None.
 Proof. split; [left; reflexivity|]. vm_compute. repeat split; reflexivity. Qed.
 
 (** the same schedule on the current code: the creator starts again from the root *)
 Theorem F28_fixed_same_schedule :
-  let st := run true (sched_f28 ++ [1;1;1;1;1;1]%nat) (sc_init sc_f28) in
+  let st := run cur (sched_f28 ++ [1;1;1;1;1;1]%nat) (sc_init sc_f28) in
   final st = true /\ both_ok st = true /\ sc_explained sc_f28 st = true /\
   lookup (abs (sh st)) [nD; nX] = Some (F [5;6]).
 Proof. vm_compute. repeat split; reflexivity. Qed.
 
 Definition sched_mkdir_p : list nat := [1;1;1;0;0;1;1;1;1;1;1]%nat.
 Theorem mkdir_p_not_atomic :
-  let st := run true sched_mkdir_p (sc_init sc_mkdir_p) in
+  let st := run cur sched_mkdir_p (sc_init sc_mkdir_p) in
   final st = true /\ both_ok st = true /\ sc_explained sc_mkdir_p st = false.
 Proof. vm_compute. repeat split; reflexivity. Qed.
 
-Lemma co_all_explored : forallb (fun c => explore true 40 (snd c) (fst c)) co_configs = true.
+Lemma co_all_explored : forallb (fun c => explore cur 40 (snd c) (fst c)) co_configs = true.
 Proof. vm_compute. reflexivity. Qed.
 
 Theorem create_once_instances c sched :
-  In c co_configs -> (forall t, step true t (run true sched (fst c)) = None) ->
-  snd c (run true sched (fst c)) = true.
+  In c co_configs -> (forall t, step cur t (run cur sched (fst c)) = None) ->
+  snd c (run cur sched (fst c)) = true.
 Proof.
   intros Hin Hn. pose proof co_all_explored as H. rewrite forallb_forall in H.
   eapply explore_sound; eauto.
@@ -1115,9 +1122,12 @@ Proof.
            { intros fo. apply SP3_upd_dir; [apply SP3_alloc_file; auto|]. intros o1 _ _. apply obj_refs_snoc.
              - eapply Forall_impl; [|exact (SP3_get _ _ _ HS Eo)]. intros r. apply rin_mono. apply (le_alloc_file s fo).
              - simpl. rewrite app_length. simpl. lia. }
-           destruct w; inv H.
+           destruct w; [|destruct (lock_first ar)]; inv H.
            ++ split; [apply SP3_upd_keep; auto; apply Hi|]. split; [simpl; auto|].
               eapply le_sh_trans; [apply (le_alloc_file s)|]. eapply le_sh_trans; apply le_upd_dir.
+           ++ split; [apply SP3_upd_keep; auto; apply Hi|]. split.
+              ** simpl. unfold fok. simpl. rewrite app_length. simpl. lia.
+              ** eapply le_sh_trans; [apply (le_alloc_file s)|]. eapply le_sh_trans; apply le_upd_dir.
            ++ split; [apply Hi|]. split; [|eapply le_sh_trans; [apply (le_alloc_file s)|apply le_upd_dir]].
               simpl. unfold dok, fok. simpl. rewrite list_upd_length, app_length. simpl. lia.
   - (* PWriterAcq *)
@@ -1324,7 +1334,8 @@ Proof.
         -- assert (Hi : forall fo, ext s (upd_dir (fst (alloc_file s fo)) d (set_ch (d_ch o ++ [(nm, RFile (length (files s)))])))).
            { intros fo. eapply ext_trans; [apply (ext_same s (fst (alloc_file s fo))); reflexivity|].
              apply ext_upd_dir. intros o1 n0 r0 E1 El1. simpl in *. rewrite Eo in E1. inv E1. apply lookup_ch_snoc; auto. }
-           destruct w; inv H; (split; [|simpl; auto]).
+           destruct w; [|destruct (lock_first ar)]; inv H; (split; [|simpl; auto]).
+           ++ eapply ext_trans; [apply Hi|]. apply ext_upd_dir. intros; simpl; auto.
            ++ eapply ext_trans; [apply Hi|]. apply ext_upd_dir. intros; simpl; auto.
            ++ apply Hi.
   - (* PWriterAcq *)
@@ -1391,12 +1402,12 @@ Proof.
   - apply IH; auto.
 Qed.
 
-Lemma f28_no_deadlock_explored : forallb (fun sc => explore true 60 final (sc_init sc)) f28_scenarios = true.
+Lemma f28_no_deadlock_explored : forallb (fun sc => explore cur 60 final (sc_init sc)) f28_scenarios = true.
 Proof. vm_compute. reflexivity. Qed.
 
 Theorem no_stuck_f28 sc sched :
-  In sc f28_scenarios -> (forall t, step true t (run true sched (sc_init sc)) = None) ->
-  final (run true sched (sc_init sc)) = true.
+  In sc f28_scenarios -> (forall t, step cur t (run cur sched (sc_init sc)) = None) ->
+  final (run cur sched (sc_init sc)) = true.
 Proof.
   intros Hin Hn. pose proof f28_no_deadlock_explored as H. rewrite forallb_forall in H.
   eapply explore_sound; eauto.
@@ -1407,7 +1418,38 @@ Qed.
 Definition st_writer_window : state := boot empty_shared [[CWriter [nX] [[1];[2]]]; [CRead [nX]]].
 Definition sched_writer_window : list nat := [0;0;0;1;1;1;0;0;0;0]%nat.
 Theorem writer_creation_window :
-  let st := run true sched_writer_window st_writer_window in
+  let st := run before_288e3e2 sched_writer_window st_writer_window in
   final st = true /\ results_of st 1 = [(CRead [nX], QData [])] /\
   results_of st 0 = [(CWriter [nX] [[1];[2]], QOk)] /\ lookup (abs (sh st)) [nX] = Some (F [1;2]).
 Proof. vm_compute. repeat split; reflexivity. Qed.
+
+(** current code: the window is closed — over ALL schedules of the same configuration the reader
+    gets an error (file not there yet) or the whole value, never the empty content *)
+Definition window_closed (st : state) : bool :=
+  final st &&
+  match results_of st 1 with
+  | [(_, QErr)] => true
+  | [(_, QData v)] => bytes_eqb v [1;2]
+  | _ => false
+  end.
+Lemma writer_window_closed_explored : explore cur 40 window_closed st_writer_window = true.
+Proof. vm_compute. reflexivity. Qed.
+Theorem writer_window_closed sched :
+  (forall t, step cur t (run cur sched st_writer_window) = None) ->
+  window_closed (run cur sched st_writer_window) = true.
+Proof. intros Hn. eapply explore_sound; eauto. exact writer_window_closed_explored. Qed.
+
+Theorem values_current s0 progs sched t o v :
+  good_shared s0 = true ->
+  In (o, QData v) (results_of (run cur sched (boot s0 progs)) t) ->
+  In v (map f_data (files s0)) \/
+  exists l p, In p progs /\ In l p /\
+    match l with CWrite _ d => v = d | CWriter _ c => v = concat c | _ => False end.
+Proof.
+  intros Hs Hin. destruct (values cur s0 progs sched Hs) as [_ H]. apply H in Hin. clear H.
+  unfold vals_of in Hin. apply in_app_or in Hin as [Hin|Hin]; [left; exact Hin|right].
+  apply in_flat_map in Hin as (l0 & Hl0 & Hin). simpl in Hl0.
+  apply in_map_iff in Hl0 as (p & <- & Hp). simpl in Hin.
+  apply in_flat_map in Hin as (l & Hl & Hv). exists l, p. split; auto. split; auto.
+  destruct l; simpl in Hv; try contradiction; destruct Hv as [Hv|[]]; auto.
+Qed.
